@@ -3,6 +3,7 @@ package sym
 import (
 	"encoding/hex"
 	"fmt"
+	"time"
 	"go/constant"
 	"go/token"
 	"go/types"
@@ -47,6 +48,7 @@ type HarnessResult struct {
 	Discharged   int
 	Trivial      int // obligations whose condition folded to true syntactically
 	ByRange      int // branch conditions decided by interval reasoning (no solver query)
+	ByModel      int // branch sides taken because the model at hand witnesses them (no solver query)
 	Violations   []*Violation
 	Inconclusive []string
 	Reached      map[string]int // assert id -> number of paths reaching it
@@ -152,6 +154,8 @@ type Exec struct {
 	opaqueSeq int
 	memo      map[string]Value
 	known     map[*Term]bool
+	model     *Model // a model of the current path condition (nil if none is at hand)
+	modelMemo map[int]uint64
 	stubNested bool
 	snaps     []ArrExpr
 	pnotes    []string
@@ -168,6 +172,10 @@ type Exec struct {
 	Hooks      Hooks
 	descCache  map[string]*Opaque
 	Desc       *DescUniverse
+	UseModels  bool
+	modelVars  int
+	tRefresh, tEval time.Duration
+	nRefresh int
 	funcsCache map[*ssa.Function]bool
 }
 
@@ -236,6 +244,7 @@ func (e *Exec) RunHarness(fn *ssa.Function) *HarnessResult {
 	res := &HarnessResult{Name: fn.Name(), Reached: map[string]int{}, Outcomes: map[string]int{}, Funcs: map[string]bool{}}
 	e.res = res
 	e.trail = nil
+	e.model = nil
 	q0, t0 := e.solver.Queries, e.solver.Time
 	e.solver.PopTo(0)
 	for {
@@ -254,7 +263,7 @@ func (e *Exec) RunHarness(fn *ssa.Function) *HarnessResult {
 		}
 		res.Steps += e.steps
 		if e.Cfg.Debug {
-			fmt.Fprintf(os.Stderr, "  path %d: %s %s (trail %d, steps %d) q=%d hard=%d t=%.1fs terms=%d\n", res.Paths, out.kind, out.detail, len(e.trail), e.steps, e.solver.Queries, e.solver.HardQueries, e.solver.Time.Seconds(), e.tb.NumTerms())
+			fmt.Fprintf(os.Stderr, "  path %d: %s %s (trail %d, steps %d) q=%d hard=%d t=%.1fs terms=%d refresh=%d/%.1fs eval=%.1fs\n", res.Paths, out.kind, out.detail, len(e.trail), e.steps, e.solver.Queries, e.solver.HardQueries, e.solver.Time.Seconds(), e.tb.NumTerms(), e.nRefresh, e.tRefresh.Seconds(), e.tEval.Seconds())
 		}
 		if len(res.Inconclusive) > 20 {
 			break
@@ -329,9 +338,12 @@ func (e *Exec) runPath(fn *ssa.Function) (out *pathEnd) {
 func (e *Exec) reportPanic(p *goPanic) *pathEnd {
 	detail := p.kind + ": " + p.detail
 	v := &Violation{Harness: e.res.Name, AssertID: "no-panic", Kind: "panic", Detail: detail + e.pathNotes(), Path: e.res.Paths}
-	if e.solver.Check() == Sat {
+	switch e.solver.Check() {
+	case Sat:
 		v.Model = e.extractModel()
-	} else {
+	case Unsat:
+		return &pathEnd{kind: "pruned", detail: "panic on an infeasible path"}
+	default:
 		v.Model = map[string]string{"_error": "path condition not confirmed satisfiable"}
 	}
 	e.res.Obligations++
@@ -365,6 +377,11 @@ func (e *Exec) backtrack() bool {
 				} else {
 					te.chosen ^= 1
 					te.other = 2
+					if r == Sat {
+						e.refreshModel()
+					} else {
+						e.model = nil
+					}
 					return true
 				}
 			}
@@ -400,6 +417,22 @@ func (e *Exec) branch(cond *Term, likely bool) bool {
 		return te.chosen == 0
 	}
 	te := &trailEntry{kind: tBranch, cond: cond, depthBefore: e.solver.Depth()}
+	if v, ok := e.evalUnderModel(cond); ok && !(likely && v) {
+		// the model at hand satisfies the path condition and decides cond: that side is
+		// feasible without asking; the other side is examined when the search backtracks
+		lit := cond
+		if !v {
+			lit = e.tb.Not(cond)
+			te.chosen = 1
+		}
+		e.solver.Push()
+		e.solver.Assert(lit)
+		e.res.ByModel++
+		e.trail = append(e.trail, te)
+		e.pos++
+		e.learn(cond, v)
+		return v
+	}
 	if likely {
 		e.solver.Push()
 		e.solver.Assert(e.tb.Not(cond))
@@ -411,6 +444,11 @@ func (e *Exec) branch(cond *Term, likely bool) bool {
 		} else {
 			te.chosen = 1
 			te.other = 0
+			if r == Sat {
+				e.refreshModel()
+			} else {
+				e.model = nil
+			}
 		}
 	} else {
 		e.solver.Push()
@@ -423,12 +461,84 @@ func (e *Exec) branch(cond *Term, likely bool) bool {
 		} else {
 			te.chosen = 0
 			te.other = 0
+			if r == Sat {
+				e.refreshModel()
+			} else {
+				e.model = nil
+			}
 		}
 	}
 	e.trail = append(e.trail, te)
 	e.pos++
 	e.learn(cond, te.chosen == 0)
 	return te.chosen == 0
+}
+
+// refreshModel must be called right after a sat answer of the incremental solver: it
+// fetches values for every input symbol and every byte-array read created so far.
+func (e *Exec) refreshModel() {
+	t0 := time.Now()
+	defer func() { e.tRefresh += time.Since(t0); e.nRefresh++ }()
+	e.model = nil
+	if !e.UseModels || e.solver.lastHard {
+		return
+	}
+	var ts []*Term
+	ts = append(ts, e.tb.Vars...)
+	nv := len(ts)
+	type sel struct {
+		name string
+	}
+	var sels []*Term
+	for _, list := range e.tb.Selects {
+		sels = append(sels, list...)
+	}
+	if len(sels) > 0 { // get-value over array reads costs more than the queries it saves (measured: 0.7 s per refresh)
+		return
+	}
+	for _, st := range sels {
+		ts = append(ts, st.Args[0], st)
+	}
+	vals, err := e.solver.GetValues(ts)
+	if err != nil {
+		return
+	}
+	m := &Model{Vars: map[string]uint64{}, UFs: map[string]map[uint64]uint8{}}
+	for i := 0; i < nv; i++ {
+		m.Vars[fmt.Sprintf("%s@%d", ts[i].Name, ts[i].W)] = vals[i]
+	}
+	for i, st := range sels {
+		tab := m.UFs[st.Name]
+		if tab == nil {
+			tab = map[uint64]uint8{}
+			m.UFs[st.Name] = tab
+		}
+		tab[vals[nv+2*i]] = uint8(vals[nv+2*i+1])
+	}
+	e.model = m
+	e.modelMemo = map[int]uint64{}
+	e.modelVars = len(e.tb.Vars)
+}
+
+// evalUnderModel evaluates a condition in the model at hand; ok is false when the model
+// does not determine it (symbols or array reads created after the model was fetched).
+func (e *Exec) evalUnderModel(cond *Term) (val bool, ok bool) {
+	if e.model == nil {
+		return false, false
+	}
+	defer func() {
+		if r := recover(); r != nil {
+			if _, isMiss := r.(modelMiss); isMiss {
+				val, ok = false, false
+				return
+			}
+			panic(r)
+		}
+	}()
+	t0 := time.Now()
+	v := e.tb.EvalStrict(cond, e.model, e.modelMemo)
+	e.tEval += time.Since(t0)
+	return v != 0, true
 }
 
 // learn records a literal decided on this path so that re-evaluating the same
@@ -488,10 +598,19 @@ func (e *Exec) assume(cond *Term) {
 	te := &trailEntry{kind: tAssume, cond: cond, depthBefore: e.solver.Depth(), other: 1}
 	e.solver.Push()
 	e.solver.Assert(cond)
-	r := e.solver.Check()
-	if r == Unsat {
-		e.solver.Pop()
-		panic(&pathEnd{kind: "pruned"})
+	if v, ok := e.evalUnderModel(cond); ok && v {
+		e.res.ByModel++
+	} else {
+		r := e.solver.Check()
+		if r == Unsat {
+			e.solver.Pop()
+			panic(&pathEnd{kind: "pruned"})
+		}
+		if r == Sat {
+			e.refreshModel()
+		} else {
+			e.model = nil
+		}
 	}
 	e.trail = append(e.trail, te)
 	e.pos++
